@@ -23,6 +23,7 @@ type Obligation struct {
 	Func     string
 	Beh      string
 	Kind     string // bounds, nil, ensures, requires-call, inv-entry, inv-pres, assert, cover ...
+	Note     string // explanation attached to obligations that are not SMT goals of the code (frame of unknown callees)
 	Pos      string
 	Guard    *Term
 	Goal     *Term
